@@ -6,16 +6,15 @@
     behaviour - and EVERY failure index k.  For the 12.48in driver the analogous theorem is
     [C15_fail_stop] (Properties/C15.v).
     (b) recovery, on the models: for each of the 30 configurations, for EVERY state of the closed
-    reachable set (hence after every history), every macro step that changes no setting, and EVERY
-    field valuation a call of that step can be interrupted in (before the call or after any of its
-    field assignments): wake_up begins with a hardware reset, so by [C04_recovery_forgets] the
-    controller ends in the same state whatever the truncated call left behind, and
-    [wake_up; update_frame; display_frame] ends with the same addressing / power registers, the same
-    image burst and the same refresh as on the driver that never made the failing call
-    ([C04_recovery]).  Macro steps that change a setting (set_lut, set_refresh, set_background_color,
-    set_border_color) are excluded: a failed setting change may or may not have taken effect, so there
-    is no unique never-failed reference.  PARTIAL in this sense: the 12.48in driver's recovery is
-    [C15_recovery_after_error]; and the same comparison is made at run time on the real crate. *)
+    reachable set (hence after every history), EVERY macro step of the alphabet (setting changes
+    included) and EVERY field valuation a call of that step can be interrupted in (the driver fields
+    in force at any of its SPI-transferring transport calls): wake_up begins with a hardware reset
+    (after busy polls at most), so by [C04_recovery_forgets] the controller ends in the same state
+    whatever the truncated call left behind, and [wake_up; update_frame; display_frame] ends with the
+    same addressing / power registers, the same image burst and the same refresh as on the driver on
+    which the same macro step completed without a failure ([C04_recovery]).  The 12.48in driver's
+    recovery is [C15_recovery_after_error].  The same comparison (against the same case run without
+    the fault) is made at run time on the real crate for every fault case. *)
 From Coq Require Import List NArith Bool.
 From EPD Require Import Iface Ops Hal HalSat HalProofs Run Ctl.Ctl Panels Spec.PSpec Spec.Specs Spec.Verdict Spec.Recover Proof.AllPanels Proof.Recovery.
 Import ListNotations.
@@ -71,15 +70,18 @@ Theorem C04_recovery_forgets : forall D PP d c c' r r',
   fst (fst (fst r)) = fst (fst (fst r')) /\ snd (fst (fst r)) = snd (fst (fst r')) /\ snd (fst r) = snd (fst r').
 Proof. exact suffix_forgets. Qed.
 
-(** Recovery after a failure at any point of any call of any non-setting macro step, in any reachable
-    state: [pair_ok (d, v_d s)] = the suffix from the interrupted fields [d] and from the never-failed
-    fields [v_d s] both succeed, both begin with a reset, and end with equal addressing / power
-    registers ([Checks.reg_diff] empty, same pending flag) and equal image bursts and refreshes. *)
+(** Recovery after a failure at any SPI transfer of any call of any macro step, in any reachable state:
+    [pair_ok (d, d1)] = the suffix from the interrupted fields [d] and from the fields [d1] of the driver
+    on which the macro step completed both succeed, both begin with a reset, and end with equal
+    addressing / power registers ([Checks.reg_diff] empty, same pending flag) and equal image bursts and
+    refreshes. *)
 Theorem C04_recovery : forall c, In c cfgs ->
-  forall s m d, In s (Rof c) -> In m (ps_alpha (spec_of (snd c))) -> existsb is_setting m = false ->
+  forall s m d d1, In s (Rof c) -> In m (ps_alpha (spec_of (snd c))) ->
+  macro_done (iD (fst c) (spec_of (snd c))) (iPP (fst c) (spec_of (snd c))) (iisig (fst c) (spec_of (snd c)))
+             (ilr (fst c) (spec_of (snd c)) 0) (ilr (fst c) (spec_of (snd c)) 1) s m = Some d1 ->
   In d (macro_fields (iD (fst c) (spec_of (snd c))) (iPP (fst c) (spec_of (snd c))) (iisig (fst c) (spec_of (snd c)))
                      (ilr (fst c) (spec_of (snd c)) 0) (ilr (fst c) (spec_of (snd c)) 1) s m) ->
-  pair_ok (iD (fst c) (spec_of (snd c))) (iPP (fst c) (spec_of (snd c))) (d, v_d s) = true.
+  pair_ok (iD (fst c) (spec_of (snd c))) (iPP (fst c) (spec_of (snd c))) (d, d1) = true.
 Proof. exact recovery_spec. Qed.
 
 (** non-vacuity: a concrete call with its second transfer failing stops there *)
